@@ -97,7 +97,14 @@ ENUM_ALPHABET = {
     "edt+enum16+invalid": [("F", 16, EDT8), ("F", 16, QAC8), ("B", 200)],
     "edt+enum16+valid": [("F", 16, EDT8), ("F", 16, QAC8), ("B", 3)],
 }
-ALL_KINDS = dict(ALPHABET, **QUIRK_ALPHABET, **ENUM_ALPHABET)
+# a frame of ANOTHER width with the same integer value as the send-twice command before it is a different frame, not its repeat
+WIDTH_ALPHABET = {
+    "config-once+24bit-same-value": [("F", 16, SCN1), ("F", 24, SCN1)],
+    "edt+cfg-once+24bit-same-value": [("F", 16, EDT6), ("F", 16, SDC2), ("F", 24, SDC2)],
+    "config24-once+16bit-same-value": [("F", 24, IDENT24), ("F", 16, IDENT24 & 0xFFFF)],
+    "query+24bit-same-value": [("F", 16, QAL1), ("F", 24, QAL1)],
+}
+ALL_KINDS = dict(ALPHABET, **QUIRK_ALPHABET, **ENUM_ALPHABET, **WIDTH_ALPHABET)
 
 
 def row_flags(desc):
@@ -833,6 +840,10 @@ def shards(tier):
     # enumerated answers, valid and invalid, followed by further traffic (the watcher must survive and keep reporting)
     eh = [(a,) for a in ENUM_ALPHABET] + [(a, b) for a in ENUM_ALPHABET for b in ("plain", "query+answer", "config-twice")] + \
          [(b, a) for a in ENUM_ALPHABET for b in ("plain", "edt+plain")]
+    wh = [(a,) for a in WIDTH_ALPHABET] + [(a, b) for a in WIDTH_ALPHABET for b in ("plain", "config-twice")] + [(b, a) for a in WIDTH_ALPHABET for b in ("plain", "config-once")]
+    out.append(("trid", wh, 2, 0, None))
+    for drv in ("luba", "sci"):
+        out.append(("serial", drv, wh, 0, 1, False))
     out.append(("trid", eh[:15], 2, 0, None))
     out.append(("trid", eh[15:], 1 if tier == "quick" else 2, 1, None))
     for drv in ("luba", "sci"):
